@@ -63,6 +63,9 @@ def gen_case(rng):
                 prog.append(("SSetSequencing", s, pos, "jump_target", rng.choice([-1, 0, 1, npos])))
             if rng.random() < 0.4:
                 prog.append(("SSetSequencing", s, pos, rng.choice(["twait", "nrep", "jump_input"]), rng.choice([0, 1, 2, 5])))
+        if rng.random() < 0.15:
+            # a stale sequencing entry beyond the last position, as the deprecated non-validating setter leaves behind
+            prog.append(("SSetSettings", s, npos + rng.choice([1, 2]), rng.choice([0, 1]), rng.choice([1, 3]), 0, rng.choice([0, 1])))
         regs_s.append(s)
         lens.append(npos)
     a, b, c = regs_s
